@@ -12,7 +12,8 @@
     2. `automorph_check` / `iso_finder` on every return path (early return, warning return, loop exit): the input first,
        pairwise distinct, every entry the input relabelled by the identity or by a recorded draw, never more than `n_iso`;
     3. every graph returned by `lc_orbit_finder` (all 2³ option sets, all depths / thresholds), `rgs_orbit_finder`,
-       `linear_partial_orbit`, `depth_first_orbit` is obtained from the input by a sequence of local complementations;
+       `linear_partial_orbit`, `depth_first_orbit` and the metric-guided walks of utils/preprocessing.py is obtained from
+       the input by a sequence of local complementations;
     4. `lc_orbit_finder` with `rep_allowed=False` returns pairwise different graphs (unequal matrices for `with_iso=True`,
        pairwise non-isomorphic as judged by the oracle otherwise).
   Not proved (Tier C / observation): that the scripted repeater / linear sequences give *distinct* graphs, and pairwise
@@ -129,6 +130,13 @@ theorem depth_first_orbit_stays_in_orbit (iso : BMat → BMat → Bool) (fuel : 
     (out : List BMat) (hsq : g.c = g.r) (hA : Simple g.r g.f) (e : depthFirstOrbit iso fuel g = .ok (paths, out)) :
     ∀ h ∈ out, InOrbit g.r g.f h :=
   depthFirstOrbit_inOrbit iso fuel g paths out hsq hA e
+
+/-- **`get_lc_graph_by_max_edge` / `get_lc_graph_by_max_neighbor_edge`** (utils/preprocessing.py): every candidate graph
+    of the metric-guided walk lies in the LC orbit of the input — for every vertex score, metric, limit, number of trials -/
+theorem metric_guided_walk_stays_in_orbit (nodeScore : BMat → Nat → Nat) (metric : BMat → Float) (g : BMat)
+    (limit trials : Nat) (out : List (Float × BMat)) (hsq : g.c = g.r) (hA : Simple g.r g.f)
+    (e : lcWalk nodeScore metric g limit trials = .ok out) : ∀ c ∈ out, InOrbit g.r g.f c.2 :=
+  lcWalk_inOrbit nodeScore metric g limit trials out hsq hA e
 
 /-- the path 0–1–2 (a linear cluster state on three vertices) -/
 def P3 : BMat := BMat.ofAdj 3 (fun i j => (i + 1 = j ∨ j + 1 = i) ∧ i < 3 ∧ j < 3)
